@@ -38,7 +38,7 @@ META = {
 _NAME = st.sampled_from(["foo", "foo_bar", "Foo.Bar", "a", "zope.interface", "foo__bar", "f00", "x_1", "A_B_C"])
 _VER = st.sampled_from(["1.0", "1.0.post1", "2!1.0", "1.0a1", "1.0+local.1", "1.0.dev0", "2024.1.15", "0", "1.0rc1.post2.dev3"])
 _BUILD = st.sampled_from([None, None, None, "1", "1abc", "2_b", "20240101"])
-_PY = st.lists(st.sampled_from(["py3", "py2", "cp39", "cp310", "pp39", "py38", "cp313", "pt38", "PY3", "CP39", "cp39rc1", "py3_10", "cpx", "py3b", "py31rc1", "cp3a"]), min_size=1, max_size=3, unique=True).map(".".join)
+_PY = st.lists(st.sampled_from(["py3", "py2", "cp39", "cp310", "pp39", "py38", "cp313", "pt38", "PY3", "CP39", "cp39rc1", "py3_10", "cpx", "py3b", "py31rc1", "cp3a", "py27", "py312", "py4", "py39", "cp38"]), min_size=1, max_size=3, unique=True).map(".".join)
 _ABI = st.lists(st.sampled_from(["none", "abi3", "cp39", "cp310t", "pypy39_pp73", "cp313t", "cp27mu", "NONE", "ABI3"]), min_size=1, max_size=3, unique=True).map(".".join)
 _PLAT = st.lists(
     st.sampled_from(["any", "manylinux_2_17_x86_64", "manylinux2014_x86_64", "win_amd64", "macosx_10_9_universal2", "linux_armv7l", "musllinux_1_1_aarch64", "manylinux_2_28_ppc64le", "win32", "macosx_11_0_arm64", "ANY", "Win_AMD64"]),
@@ -214,6 +214,30 @@ def evaluate(kind, case, acc):
     b = spec.compatibility(*[list(x) for x in exp])
     if a != b:
         acc.fail(kind, "wheel:wheel_compatibility-differs-from-compatibility-on-reference-tags", case, expected=b, got=a)
+    # "compressed tag sets expanded": the wheel is judged like the best of its single-tag expansions, whatever the
+    # order in which the compressed sets are written (a and b above go through the same code, this does not)
+    for sp in _specs():
+        whole = sp.wheel_compatibility(name)
+        singles = [sp.compatibility([p], [ab], [pl]) for p in exp[0] for ab in exp[1] for pl in exp[2]]
+        singles = [x for x in singles if x is not None]
+        best = None
+        if singles:
+            best = (*max(x[:3] for x in singles), max(x[3] for x in singles))
+        acc.oracle_evaluations += 1
+        if len(exp[0]) * len(exp[1]) * len(exp[2]) > 1 and best is not None:
+            acc.label("compressed-set-with-compatible-expansion")
+        if whole != best:
+            acc.fail(kind, "wheel:compressed-set-not-judged-like-its-expansions", case, expected=best, got={"wheel_compatibility": whole, "spec": str(sp.requires_python), "platform": str(sp.platform)})
+            break
+
+
+_SPECS = []
+
+
+def _specs():
+    if not _SPECS:
+        _SPECS.extend([EnvSpec(RangeSpecifier(), None, None), EnvSpec.from_spec(">=2.7", "manylinux_2_28_x86_64", "cpython"), EnvSpec.from_spec(">=3.9", "macos_12_0_arm64")])
+    return _SPECS
 
 
 def candidates(kind, case):
